@@ -245,9 +245,11 @@ def _su_conv_check(c):
     for nm, w, got in (('rad', u, float(sol.temperature_rad[0])), ('mat', v, float(sol.temperature_mat[0]))):
         if w <= 0 or not math.isfinite(got):
             continue
-        want = TH_KEV * (w * (s.trad_bc_ev / TH_KEV) ** 4) ** 0.25
-        if O.relerr(got, want) > 1e-9:
-            return dict(site='SuOlson:conversion-' + nm, detail='returned %r, conversion gives %r' % (got, want))
+        # compare in u-space: the quadrature answers to ~1e-8 absolute and reacts to a last-bit change of tau
+        got_u = (got / TH_KEV) ** 4 / (s.trad_bc_ev / TH_KEV) ** 4
+        if abs(got_u - w) > 1e-9 * abs(w) + 2e-8:
+            return dict(site='SuOlson:conversion-' + nm,
+                        detail='(T/T_bc)^4 of the returned temperature = %r, dimensionless solution at the stated arguments = %r' % (got_u, w))
     return None
 
 
@@ -296,7 +298,9 @@ def _su_bounds_check(c):
         uv2 = [_su_dimless(s, x, c['tau'] * 1.5) for x in xs]
     except Exception:
         return None
-    tol = 2e-6            # quadrature tolerance of the solver (eps2 = 1e-8 per piece, up to 100 pieces)
+    # calibrated on the unchanged tree: the quadrature noise of v in the far tail reaches 2e-5 (v - u), 8e-6 (space),
+    # 3e-6 (time) over 400 random cases; 10x margin, the same size as the test suite's own atol = 1.5e-4
+    tol = 2e-4
     for x, (u, v), (u2, v2) in zip(xs, uv, uv2):
         if not all(map(math.isfinite, (u, v, u2, v2))):
             continue
